@@ -103,6 +103,34 @@ class MigWorld(World):
             self.new_dump = self.dump()
         return out
 
+    def op_legacy_backup(self, s):
+        """The user once copied the legacy database aside (peewee-sqlite[-testing].v2.backup.db); the live legacy
+        store has moved on since.  The migration must read the live file."""
+        if self.phase != "legacy" or self.ds is None:
+            return {"skipped": "no legacy store open"}
+        import shutil as _sh
+
+        prof = self.cur_profile
+        self.flush_legacy()
+        src = self.legacy_path(prof)
+        if not os.path.exists(src):
+            return {"skipped": "no legacy file yet"}
+        dst = src[: -len(".db")] + ".backup.db"
+        seams.assert_in_scratch(dst)
+        _sh.copyfile(src, dst)
+        self.probes["legacy_backup_copy_beside"] += 1
+        return {"ret": None, "exc": None}
+
+    def flush_legacy(self):
+        st = getattr(self.ds, "storage_strategy", None)
+        db = getattr(st, "db", None)
+        if db is not None:
+            try:
+                db.close()
+                db.connect()
+            except Exception:
+                pass
+
     def op_new_delete_bucket(self, s):
         """The user deletes one of the migrated buckets in the new store."""
         if self.phase != "new" or self.ds is None:
@@ -190,7 +218,7 @@ class C14(Check):
         "under the same bucket ids; then first start and a restart of the default SqliteStorage in the same fake home; "
         "non-trivial = legacy store held >=1 bucket with >=1 event; distinct = (profile, op-kind sequence, events per bucket)"
     )
-    expected_probes = ["legacy_events_migrated", "legacy_bucket_with_data", "legacy_bucket_name_omitted", "distractor_profile_present", "legacy_exit_dirty", "id_holes", "profile_testing", "profile_normal", "unicode_bucket_id", "restart_new_checked", "legacy_bucket_over_1000_events", "legacy_negative_duration", "new_store_exit_without_shutdown", "bucket_ids_differ_in_case", "both_profiles_migrated_in_one_process", "legacy_unpaired_surrogate", "migrated_bucket_deleted_then_restart"]
+    expected_probes = ["legacy_events_migrated", "legacy_bucket_with_data", "legacy_bucket_name_omitted", "distractor_profile_present", "legacy_exit_dirty", "id_holes", "profile_testing", "profile_normal", "unicode_bucket_id", "restart_new_checked", "legacy_bucket_over_1000_events", "legacy_negative_duration", "new_store_exit_without_shutdown", "bucket_ids_differ_in_case", "both_profiles_migrated_in_one_process", "legacy_unpaired_surrogate", "migrated_bucket_deleted_then_restart", "legacy_backup_copy_beside"]
     assumptions = ["the data directory is found through XDG_DATA_HOME (platformdirs); the harness asserts every database path lies inside the run's scratch home"]
     real_components = ["PeeweeStorage (legacy store at default path)", "SqliteStorage (new store at default path)", "aw_datastore.migration", "aw_core.dirs / platformdirs", "SQLite engine", "peewee ORM"]
     stub_components = ["home directory (XDG_* in scratch)", "loggers", "the legacy client (generated history)"]
@@ -223,8 +251,12 @@ class C14(Check):
             parties.append(actors.Importer(rs["imp%d" % k], cfg, b))
             parties.append(actors.Editor(rs["edit%d" % k], cfg, b))
         weights = {"importer": 2.0, "editor": 0.8}
+        backup_at = r.randrange(0, 6) if r.random() < 0.15 else None
         nsteps = r.choice([0, 1, 3, 6, 12, 25] + ([50, 100] if tier == "thorough" else []))
-        steps += [s for s in actors.schedule(rs["sched"], parties, weights, nsteps) if s["op"] != "replace_last"]
+        sched = [s for s in actors.schedule(rs["sched"], parties, weights, nsteps) if s["op"] != "replace_last"]
+        if backup_at is not None:
+            sched.insert(min(backup_at, len(sched)), {"op": "legacy_backup"})
+        steps += sched
         br = rs["big"]
         if br.random() < 0.08:
             # a large legacy bucket (any number of events): one or more bulk loads of hundreds to thousands
